@@ -136,6 +136,10 @@ def run(ctx):
             "|bars|\n1 -> a {dx dy rz} b {dx dy rz} 'steel s' 'ipe'\n2 -> b {dx dy rz} c {dx dy rz} %s\n")
     for pair in ("'steel' 's ipe'", "'steel s' 'ipe '", "'steel' 'ipe'", "'steel  s' 'ipe'"):
         faults.append(("collision", base % pair))
+    # loads on a bar that is not defined but whose name resembles a defined one (identifiers are free text: '01' is not '1')
+    lbase = (base % "'steel s' 'ipe'") + "|loads|\nfx lc 1 0.5 20\nfy ld %s 0 -50 1 -50\nfy lc 2 0.25 -10\n"
+    for bid in ("01", "002", "1.0", "+1", "1e0", "2.", "0x1"):
+        faults.append(("lookalike", lbase % bid))
     texts = [("valid", t) for t in valid] + faults
     outs = S.run_pipeline(ctx, [{"Text": t, "ParseOnly": True} for k, t in texts])
     rejected = sum(1 for o in outs if o.get("ParsePanic"))
@@ -150,6 +154,8 @@ def run(ctx):
         fails = count_oracle(text, o)
         if kind == "collision":
             fails.append("a bar naming an undefined material / section was accepted")
+        if kind == "lookalike":
+            fails.append("a load on an undefined bar whose name resembles a defined one was accepted")
         if fails:
             if concrete < 3:
                 ctx.violation("part of the input is silently ignored: " + "; ".join(fails), {"text": text, "kind": kind, "failures": fails})
